@@ -28,6 +28,20 @@ func onModes() []onMode {
 
 // newBody draws a replacement text for old, aimed at the rewrite path:
 // shorter, longer, empty, multi-line, terminator-like, header-like, 1 MB <-> 1 B.
+// swapTerminatorLines exchanges whole lines `---` and `/-/-/-/`.
+func swapTerminatorLines(s string) string {
+	ls := strings.Split(s, "\n")
+	for i, l := range ls {
+		switch l {
+		case "---":
+			ls[i] = "/-/-/-/"
+		case "/-/-/-/":
+			ls[i] = "---"
+		}
+	}
+	return strings.Join(ls, "\n")
+}
+
 func newBody(r *rand.Rand, old string, headers []string) (string, string) {
 	switch r.IntN(9) {
 	case 0:
@@ -125,6 +139,15 @@ func runC04(c *vkit.Ctx, i int, h *History, om onMode) {
 			switch op.API {
 			case "snap", "ssnap":
 				nb, cls := newBody(mr, op.Val.S, headers[op.File])
+				if op.API == "ssnap" && mr.IntN(6) == 0 {
+					// standalone files are raw: a whole line `---` and a whole line `/-/-/-/` are two
+					// different ordinary lines there, swapping them is a change like any other
+					if sw := swapTerminatorLines(op.Val.S); sw != op.Val.S {
+						nb, cls = sw, "standalone-terminator-and-escape-token-lines-swapped"
+					} else {
+						nb, cls = op.Val.S+"\n---\n/-/-/-/", "standalone-gains-terminator-and-escape-token-lines"
+					}
+				}
 				if op.API == "snap" {
 					nb = vkit.NoCREOL(nb)
 				}
